@@ -226,6 +226,47 @@ def propagate_units(pc, formula):
     return [rewrite(f) for f in pc], rewrite(formula)
 
 
+def _lazy_solve(hard, pending, deadline):
+    """Solve `hard` and add from `pending` only the formulas a candidate model violates.  Returns (z3.unsat, solver) if the
+    formulas added so far are unsatisfiable, (z3.sat, solver) if the solver's model satisfies `hard` and every pending
+    formula, (z3.unknown, None) otherwise."""
+    sl = z3.Solver()
+    sl.set('timeout', int(3000 * SCALE))
+    sl.add(*hard)
+    pending = list(pending)
+    for _round in range(40):
+        if time.time() > deadline:
+            break
+        rl = sl.check()
+        if rl == z3.unknown:
+            for seed in (7, 23, 101):
+                s2 = z3.Solver()
+                s2.set('timeout', int(3000 * SCALE))
+                s2.set('random_seed', seed)
+                s2.add(*sl.assertions())
+                rl = s2.check()
+                if rl != z3.unknown:
+                    sl = s2
+                    break
+        if rl == z3.unsat:
+            return z3.unsat, sl
+        if rl != z3.sat:
+            break
+        ml = sl.model()
+        bad, rest = [], []
+        for a in pending:
+            try:
+                v = ml.eval(a, model_completion=True)
+            except z3.Z3Exception:
+                v = None
+            (rest if v is not None and z3.is_true(v) else bad).append(a)
+        if not bad:
+            return z3.sat, sl
+        sl.add(*bad[:60])
+        pending = rest + bad[60:]
+    return z3.unknown, None
+
+
 def _check_valid(pc, formula, want_model=True, timeout_ms=None, second_backend=True):
     """Is `formula` valid under the assumptions `pc`?  Returns (status, backend, seconds, model, solver)."""
     t0 = time.time()
@@ -365,6 +406,7 @@ def _check_valid(pc, formula, want_model=True, timeout_ms=None, second_backend=T
     # the argument is a variable; unfold them on the model's value of the argument and re-solve
     rounds = 0
     seen_lemmas = set()
+    lemma_ids = set()
     last_model = None
     while r == z3.sat and rounds < 8:
         m = s.model()
@@ -413,8 +455,51 @@ def _check_valid(pc, formula, want_model=True, timeout_ms=None, second_backend=T
         s.add(*lemmas)
         s.add(*more)
         ax = ax + lemmas + more
+        lemma_ids.update(x.get_id() for x in lemmas)
         rounds += 1
         r = s.check()
+        if r == z3.unknown:
+            # the sequence solver gives up on the refined query ("incomplete (theory seq)"): solve it lazily instead (hard part:
+            # path condition, negated goal and the valid unfolding lemmas; axiom instances only as far as a model violates them)
+            rl, sl2 = _lazy_solve(fs + [l for l in ax if l.get_id() in lemma_ids or l.get_id() in set(x.get_id() for x in lemmas)],
+                                  [a for a in ax], time.time() + 15 * SCALE)
+            if rl == z3.unsat:
+                return 'proved', 'z3', time.time() - t0, None, sl2
+            if rl == z3.sat:
+                s, r = sl2, z3.sat
+            else:
+                # look for a counter-model of the shape the last model had: every sequence variable a specification function
+                # is applied to becomes a concatenation of that many fresh units (a restriction: `sat` is a counter-model of
+                # the original query, `unsat` means nothing)
+                try:
+                    subs, seen_args = [], set()
+                    for sf, app in apps:
+                        arg = app.arg(app.num_args() - 1)
+                        if not z3.is_const(arg) or arg.decl().kind() != z3.Z3_OP_UNINTERPRETED or arg.get_id() in seen_args:
+                            continue
+                        seen_args.add(arg.get_id())
+                        n = m.eval(z3.Length(arg), model_completion=True).as_long()
+                        if n > 6:
+                            continue
+                        es = [z3.FreshConst(arg.sort().basis(), 'u') for _ in range(n)]
+                        conc = z3.Empty(arg.sort()) if n == 0 else (z3.Unit(es[0]) if n == 1 else z3.Concat(*[z3.Unit(e) for e in es]))
+                        subs.append((arg, conc))
+                    if subs:
+                        fs2 = [z3.substitute(f, *subs) for f in fs]
+                        ax2 = sym.instantiate_axioms(fs2)
+                        ax2 += sym.length_axioms(fs2)
+                        ax2 += sym.structural_axioms(fs2 + ax2)
+                        ax2 += sym.str_elem_distinct()
+                        rl, sl3 = _lazy_solve(fs2 + [a == c for a, c in subs], ax2, time.time() + 15 * SCALE)
+                        if os.environ.get('PYVC_DBG'):
+                            print('   [refine] shape-restricted', rl, flush=True)
+                        if rl == z3.sat:
+                            s, r = sl3, z3.sat
+                            break
+                except (z3.Z3Exception, AttributeError):
+                    pass
+        if os.environ.get('PYVC_DBG'):
+            print('   [refine] round', rounds, r, len(lemmas), s.reason_unknown() if r == z3.unknown else '', flush=True)
     if r == z3.unsat:
         return 'proved', 'z3', time.time() - t0, None, s
     if r == z3.sat:
